@@ -33,6 +33,37 @@ POOLS = [
 ]
 
 
+TS_POOL = 2          # names computed from the DAG so that every edge respects time; built as a TimeSeriesCausalGraph
+
+
+def ts_names(n, edges):
+    """`tsv<i>` at a lag that grows with the depth of node i (longest path from a source): every edge goes forward in
+    time, nodes of one depth (or of two adjacent depths) are contemporaneous.  A cyclic edge list gets lag 0 throughout."""
+    level = [0] * n
+    for _ in range(n):
+        changed = False
+        for a, b in edges:
+            if level[b] < level[a] + 1:
+                level[b] = level[a] + 1
+                changed = True
+        if not changed:
+            break
+    else:
+        if n:
+            level = [0] * n                       # a directed cycle: everything contemporaneous
+    top = max(level) if n else 0
+    halve = (n + len(list(edges))) % 2 == 1
+    out = []
+    for i in range(n):
+        back = (top - level[i]) // 2 if halve else top - level[i]
+        out.append(f'tsv{i}' if back == 0 else f'tsv{i} lag(n={back})')
+    return out
+
+
+def pool_names(pool, n, edges):
+    return ts_names(n, [tuple(e) for e in edges]) if pool == TS_POOL else POOLS[pool][:n]
+
+
 # ----------------------------------------------------------------------------------------------
 # brute-force graph theory over nodes 0..n-1
 # ----------------------------------------------------------------------------------------------
@@ -137,23 +168,37 @@ UNKNOWN = 'zz?'      # a name that is in no pool: the "unknown node" probe
 
 def names_of(case):
     """node names by index (explicit `names` survive shrinking), followed by the unknown-node probe name."""
-    ns = list(case.get('names') or POOLS[case['pool']][:case['n']])
+    ns = list(case.get('names') or pool_names(case['pool'], case['n'], case.get('e') or []))
     return ns + [UNKNOWN] * 2
 
 
 def build(n, edges, names, validate=True):
     """Real CausalGraph: nodes names[:n] in index order, directed edges in the given order."""
-    from cai_causal_graph import CausalGraph
-    g = CausalGraph()
-    for i in range(n):
-        g.add_node(names[i])
+    from cai_causal_graph import CausalGraph, TimeSeriesCausalGraph
+    # (the names of the time-series pool say which class to build: see ts_names)
+    g = TimeSeriesCausalGraph() if n and all(x.startswith('tsv') for x in names[:n]) else CausalGraph()
     edges = list(edges)
+    # isolated nodes sometimes arrive LAST, by a direct add_node on warm caches with no mutation after it
+    touched = {i for e in edges for i in e}
+    late = [i for i in range(n) if i not in touched] if validate and edges and (n + 2 * len(edges)) % 3 == 0 else []
+    for i in range(n):
+        if i not in late:
+            g.add_node(names[i])
     for k, (a, b) in enumerate(edges):
         if validate and k == len(edges) - 1 and len(edges) >= 2:
             gen.stress(g, ('c18-pre', n, tuple(edges), tuple(names[:n])))
-        g.add_edge(names[a], names[b], validate=validate)
+        if (n + k) % 3 == 0:
+            g.add_edge(names[a], names[b], edge_type='->', validate=validate)      # the type spelled as a plain string
+        else:
+            g.add_edge(names[a], names[b], validate=validate)
     if validate:
         gen.stress(g, ('c18', n, tuple(edges), tuple(names[:n])))
+        g = gen.reroute(g, ('c18', n, tuple(edges), tuple(names[:n])))[0]
+        if late:
+            gen._warm(g)
+            for i in late:
+                g.add_node(names[i])
+        gen.query_noise(g, ('c18', n, tuple(edges), tuple(names[:n])))
     return g
 
 
@@ -308,12 +353,15 @@ def graph_cases(tier, rng):
         for n in range(0, 5):
             for e in gen.all_labelled_dags(n):
                 yield n, e, 0
+        for n in range(2, 5):
+            for e in gen.all_labelled_dags(n):
+                yield n, e, TS_POOL                       # the same graphs as time-series graphs
         five = list(gen.all_labelled_dags(5))
         for e in rng.sample(five, 6000):
-            yield 5, e, rng.randrange(2)
+            yield 5, e, rng.randrange(3)
         for _ in range(600):
             n = rng.choice([6, 7])
-            yield n, gen.random_dag(rng, n, p=rng.choice([0.25, 0.4, 0.6])), rng.randrange(2)
+            yield n, gen.random_dag(rng, n, p=rng.choice([0.25, 0.4, 0.6])), rng.randrange(3)
         # a seeded sample of the 32 768 topological shapes on 6 nodes (all of them in the thorough tier)
         pairs6 = [(i, j) for i in range(6) for j in range(i + 1, 6)]
         for mask in rng.sample(range(1 << len(pairs6)), 6000):
@@ -322,13 +370,16 @@ def graph_cases(tier, rng):
         for n in range(0, 5):
             for e in gen.all_labelled_dags(n):
                 yield n, e, 0
+        for n in range(2, 5):
+            for e in gen.all_labelled_dags(n):
+                yield n, e, TS_POOL
         for k, e in enumerate(gen.all_labelled_dags(5)):
-            yield 5, e, (1 if k % 7 == 0 else 0)
+            yield 5, e, (1 if k % 7 == 0 else TS_POOL if k % 7 == 1 else 0)
         for k, e in enumerate(gen.upper_triangular_dags(6)):
-            yield 6, e, (1 if k % 7 == 3 else 0)
+            yield 6, e, (1 if k % 7 == 3 else TS_POOL if k % 7 == 4 else 0)
         for _ in range(1500):
             n = rng.choice([7, 8])
-            yield n, gen.random_dag(rng, n, p=rng.choice([0.2, 0.3, 0.45])), rng.randrange(2)
+            yield n, gen.random_dag(rng, n, p=rng.choice([0.2, 0.3, 0.45])), rng.randrange(3)
 
 
 def error_cases(tier, rng):
